@@ -359,6 +359,19 @@ func StructFault(t *tape.Tape, in []byte, kind string) (out []byte, applied stri
 			return nil, "", false
 		}
 		s.It.Indef = true
+	case "unprot-clear":
+		// one unprotected map emptied (benign: the bucket is not signed)
+		var maps []*refcbor.Item
+		for _, s := range sites {
+			if !s.Inner && s.It.Major == refcbor.MArray && (len(s.It.Elems) == 3 || len(s.It.Elems) == 4) &&
+				s.It.Elems[0].Major == refcbor.MBstr && s.It.Elems[1].Major == refcbor.MMap && len(s.It.Elems[1].Elems) > 0 {
+				maps = append(maps, s.It.Elems[1])
+			}
+		}
+		if len(maps) == 0 {
+			return nil, "", false
+		}
+		maps[t.Choose(len(maps), "structfault.umap")].Elems = nil
 	case "unprot-edit":
 		// add, remove or alter one parameter of an unprotected map (the second
 		// element of a 3- or 4-array whose first is a byte string)
@@ -373,7 +386,10 @@ func StructFault(t *tape.Tape, in []byte, kind string) (out []byte, applied stri
 			return nil, "", false
 		}
 		um := maps[t.Choose(len(maps), "structfault.umap")]
-		switch op := t.Choose(3, "structfault.uop"); {
+		switch op := t.Choose(4, "structfault.uop"); {
+		case op == 3:
+			// a relay that strips the whole unprotected bucket (a0 on the wire)
+			um.Elems = nil
 		case op == 0 || len(um.Elems) == 0:
 			k := refcbor.Tstr("verif-added-" + genText(t, 6))
 			if t.Bool(1, 2, "structfault.ukint") {
